@@ -1,4 +1,5 @@
 import Balm.Impl.Cache
+import Balm.Impl.SkipExcl
 /-! C16: `Balm.Cache.step_rel` (the "equal up to reclaimed candidates" relation is a bisimulation for
 every protocol operation), `rel_reclaim`, `reclaim_transparent`, `relNode_obs` (related nodes are
 observationally equal). Pickling is the identity on the protocol state. -/
